@@ -52,7 +52,7 @@ def model(run, thorough):
         run.configs.append({"config": "negative: " + name, "violates": want})
 
 
-def edge_plans(s, items, rng):
+def edge_plans(s, items, rng, coupled=False):
     """Slot- and count-sensitive plans: one item's pass count exactly at the threshold, one item's histogram
     accepted but such that moving any one sample into bin 0 (what an unwritten / overwritten slot does, since
     untouched slots hold 0.0) rejects it."""
@@ -87,6 +87,12 @@ def edge_plans(s, items, rng):
     tail = best[1:]
     rng.shuffle(tail)
     ip[k2] = {"pass": s, "hist": [best[0]] + tail, "qmode": "center"}
+    if coupled:
+        # the same item is at the pass-count threshold AND at the uniformity edge, and its failing samples carry a Q
+        # outside bin 0: every sample's Q counts in the histogram, whether or not the sample passed
+        ip[k1] = {"pass": s, "hist": wf.flat(s), "qmode": "center"}
+        fb = rng.choice([b for b in range(1, 10) if ip[k2]["hist"][b] >= s - thr])
+        ip[k2] = dict(ip[k2], **{"pass": thr, "failbin": fb})
     return ip
 
 
@@ -125,7 +131,7 @@ def run(tier):
                         for k in (12, 13, 14):
                             ip[k] = {"pass": 0, "hist": [s] + [0] * 9, "qmode": "center"}
                     else:
-                        ip = edge_plans(s, items, rng)
+                        ip = edge_plans(s, items, rng, coupled=True)
                     pol = policies[(rep + jid) % len(policies)]
                     size = rng.choice([61, 4093, 1000, 125001]) if pol in ("fixed", "straddle") else 0
                     pseed = rng.randrange(1 << 30)
